@@ -23,6 +23,10 @@ type envCase struct {
 	// (Whether an env: entry is visible to templates, and where it would rank, is
 	// not documented: {{.NAME}} is not judged in these scenarios.)
 	VarSites []site
+	// Decoy: another task with its own dir: and a dotenv file of the SAME relative name (defining the variable
+	// differently) runs first in the same invocation; the target's dotenv paths are relative then. The decoy's
+	// file must never be taken for the target's.
+	Decoy bool
 }
 
 var envSiteNames = []string{"taskenv", "taskdot1", "taskdot2", "globalenv", "globaldot", "procenv"}
@@ -51,6 +55,9 @@ func (e envCase) key() string {
 		s = append(s, "procenv=empty")
 	}
 	k := fmt.Sprintf("experiment=%v|%s", e.Experiment, strings.Join(s, ","))
+	if e.Decoy {
+		k += "|decoy-task-same-dotenv-name"
+	}
 	if len(e.VarSites) > 0 {
 		k += "|vars="
 		for _, v := range e.VarSites {
@@ -115,6 +122,13 @@ func envCases() []envCase {
 						if !seen[e.key()] {
 							seen[e.key()] = true
 							out = append(out, e)
+						}
+						if d := e; k == kLit && (e.Dot1 || e.Dot2) && proc != 2 {
+							d.Decoy = true
+							if !seen[d.key()] {
+								seen[d.key()] = true
+								out = append(out, d)
+							}
 						}
 					}
 				}
@@ -183,7 +197,11 @@ func (sc *scenario) buildEnv() {
 	t.WriteString("  target:\n")
 	if e.Dot1 || e.Dot2 {
 		// absolute paths: the working directory of an included task is not the root directory
-		t.WriteString("    dotenv: ['{{.ROOT_DIR}}/t1.env', '{{.ROOT_DIR}}/t2.env']\n")
+		if e.Decoy {
+			t.WriteString("    dotenv: ['t1.env', 't2.env']\n")
+		} else {
+			t.WriteString("    dotenv: ['{{.ROOT_DIR}}/t1.env', '{{.ROOT_DIR}}/t2.env']\n")
+		}
 		files["t1.env"] = "DECOY_T1=x\n"
 		files["t2.env"] = "DECOY_T2=x\n"
 		if e.Dot1 {
@@ -196,6 +214,12 @@ func (sc *scenario) buildEnv() {
 	if e.TaskEnv {
 		t.WriteString("    env:\n" + envEntry("      ", n, "taskenv", e.Kind))
 	}
+	decoy := ""
+	if e.Decoy {
+		decoy = "  decoy:\n    dir: ./ddir\n    dotenv: ['t1.env', 't2.env']\n    cmds:\n      - 'true'\n"
+		files["ddir/t1.env"] = n + "=decoydot1.lit\n"
+		files["ddir/t2.env"] = n + "=decoydot2.lit\nDECOY_T2=y\n"
+	}
 	// a dynamic variable whose command reads the same environment variable
 	t.WriteString("    vars:\n      SEEN_BY_SH:\n        sh: " + yq(`printf '%s' "${`+n+`-unset}"`) + "\n")
 	if e.hasVar(sTask) {
@@ -206,7 +230,7 @@ func (sc *scenario) buildEnv() {
 	t.WriteString("      - " + yq(`printf '%s\n' 'S|{{.SEEN_BY_SH}}|'`) + "\n")
 	switch sc.Pos {
 	case 0:
-		root += t.String()
+		root += t.String() + decoy
 	case 1:
 		root += "includes:\n  a:\n    taskfile: ./inc1/Taskfile.yml\n"
 		files["inc1/Taskfile.yml"] = "version: '3'\n" + t.String()
@@ -220,6 +244,9 @@ func (sc *scenario) buildEnv() {
 	sc.args = []string{"-s"}
 	if e.hasVar(sCLI) {
 		sc.args = append(sc.args, n+"=cli.lit")
+	}
+	if e.Decoy {
+		sc.args = append(sc.args, "decoy")
 	}
 	if e.hasVar(sCall) {
 		sc.args = append(sc.args, posTaskPrefix[sc.Pos]+"caller")
